@@ -6,9 +6,43 @@ import json
 import os
 
 from ..core import Ctx
-from ..match import (Fact, arg, call_name, calls, fact_of, facts_at, has_fact, local_defs, mentions, resolve, same_expr,
-                     single_def)
+from ..match import Fact, arg, call_name, calls, fact_of, facts_at, has_fact, mentions, same_expr
+from ..match import local_defs as _match_local_defs
 from ..model import NOCONST, AnalysisError, ClassInfo, FuncInfo, chain, norm, parent, strip_cast, walk_no_nested
+
+
+# ------------------------------------------------------------------------------------------ definitions of locals
+# `x = x` - also as one component of a tuple assignment `a, x, b = (a, x, f())`, which is what remains when a phase
+# helper that returned some of the caller's own names next to new values was inlined - evaluates x and stores the very
+# same object back: it is not a definition of x (the value of x after it is the value before it).  The def-use helpers of
+# this module therefore do not count it, so that x stays the single-assignment local it is.
+def local_defs(fi: FuncInfo, name: str) -> list:
+    return [d for d in _match_local_defs(fi, name)
+            if not (d[2] is None and isinstance(d[1], ast.Name) and d[1].id == name and isinstance(d[0], ast.Assign))]
+
+
+def single_def(fi: FuncInfo, name: str):
+    """(value, tuple_index) if `name` is a non-parameter local assigned exactly once, else None."""
+    if name in fi.params():
+        return None
+    d = local_defs(fi, name)
+    if len(d) == 1 and d[0][1] is not None:
+        return d[0][1], d[0][2]
+    return None
+
+
+def resolve(fi: FuncInfo, expr: ast.AST, depth: int = 4) -> ast.AST:
+    """Follow single-assignment local aliases: `x = self.t.get(k)` ... `x` -> the `get` call."""
+    if expr is None:
+        return None
+    expr = strip_cast(expr)
+    while depth > 0 and isinstance(expr, ast.Name):
+        d = single_def(fi, expr.id)
+        if d is None or d[1] is not None:
+            break
+        expr = strip_cast(d[0])
+        depth -= 1
+    return expr
 
 LEVEL = "other"
 EXPLANATION = (
@@ -24,7 +58,10 @@ EXPLANATION = (
     "prefix, which binds a message to one overlay only if the receiver checks it); (h) inside the authenticating wrappers "
     "nothing that changes a verified-peer entry (peer.add_address on the entry looked up under the key named in the "
     "datagram, writes to the registry / network, helpers that do so) is reachable before a positive verdict - an unsigned "
-    "datagram must not re-home a verified peer. A signature / prefix check spelled as "
+    "datagram must not re-home a verified peer; (i) Peer.__init__ turns key bytes into the peer's key object only by "
+    "key_from_public_bin(<the whole argument>) - the same parse of the same bytes that _verify_signature verifies with - "
+    "directly, through a helper / functools cache, or through a memo table indexed with the whole argument (a table or "
+    "parser fed a PART of the bytes can resolve to another key than the one that verified). A signature / prefix check spelled as "
     "an `assert` does not count (compiled away under -O). Constructs are recognised by what they compute: expressions "
     "are compared after substituting single-assignment locals and composing slices of slices, values that travel through "
     "locals are followed by reaching definitions on the CFG; which parameter of _verify_signature is the datagram / the "
@@ -34,7 +71,10 @@ EXPLANATION = (
     "or through a local closure that is itself wrapped by a directly verifying decorator; helpers are analysed with "
     "their parameters bound to the caller's arguments; a result object (NamedTuple / dataclass / namedtuple / a class "
     "whose __init__ only stores its parameters) is the tuple of its constructor arguments with named components, Enum "
-    "members are distinct constants, X[slice(a, b)] is X[a:b], `with contextlib.suppress(E): B` is try: B except E: pass. "
+    "members are distinct constants, X[slice(a, b)] is X[a:b], `with contextlib.suppress(E): B` is try: B except E: pass, "
+    "`x = x` (also as a component of a tuple assignment) defines nothing, a private list that is only grown at its end "
+    "(append / extend / += display) and only read by b''.join(..) is, at each program point, the concatenation of the items "
+    "put in on the path taken. "
     "Decides the dataflow/dominance facts, not the cryptography."
 )
 
@@ -1250,9 +1290,49 @@ def _desugar_functional(fi: FuncInfo, e):
     return _map_bottom_up(e, fn)
 
 
+def _strip_byte_views(fi: FuncInfo, e):
+    """
+    Byte CONTENT is what the slice rules compare, and these wrappers do not change it: memoryview(X) has the items of X
+    (so memoryview(X)[a:b] has the items of X[a:b]); bytes(V) / V.tobytes() of a slice V of a bytes value / of such a view
+    is that slice.  memoryview(X) -> X, bytes(<slice>) -> <slice>, <slice>.tobytes() -> <slice> (builtins only).
+    """
+    def fn(n):
+        if isinstance(n, ast.Call) and not n.keywords and len(n.args) == 1 and not isinstance(n.args[0], ast.Starred) \
+                and isinstance(n.func, ast.Name):
+            a = n.args[0]
+            if n.func.id == "memoryview" and not _module_binds(fi, "memoryview"):
+                n2 = clone_shallow(a)
+                n2._c01_view = True                      # type: ignore[attr-defined]
+                return n2
+            if n.func.id == "bytes" and not _module_binds(fi, "bytes") and (
+                    getattr(a, "_c01_view", False) or (isinstance(a, ast.Subscript) and isinstance(a.slice, ast.Slice)
+                                                        and getattr(a.value, "_c01_view", False))):
+                return a
+        if isinstance(n, ast.Call) and not n.keywords and not n.args and isinstance(n.func, ast.Attribute) \
+                and n.func.attr == "tobytes":
+            a = n.func.value
+            if getattr(a, "_c01_view", False) or (isinstance(a, ast.Subscript) and getattr(a.value, "_c01_view", False)):
+                return a
+        if isinstance(n, ast.Subscript) and isinstance(n.slice, ast.Slice) and getattr(n.value, "_c01_view", False):
+            n._c01_view = True                           # a slice of a view is a view  # type: ignore[attr-defined]
+        return n
+
+    def clone_shallow(a):
+        new = type(a)()
+        for f in a._fields:
+            setattr(new, f, getattr(a, f, None))
+        return ast.copy_location(new, a)
+
+    if not any(isinstance(n, ast.Name) and n.id == "memoryview" for n in ast.walk(e)):
+        return e
+    return _map_bottom_up(e, fn)
+
+
 def _xs(fi: FuncInfo, e: ast.AST | None):
     """fully expanded (single-assignment locals substituted) and slice-composed copy of e"""
-    return None if e is None else _simplify_slices(_slice_objects_to_syntax(fi, _desugar_functional(fi, _expand(fi, e))))
+    if e is None:
+        return None
+    return _simplify_slices(_strip_byte_views(fi, _slice_objects_to_syntax(fi, _desugar_functional(fi, _expand(fi, e)))))
 
 
 # ------------------------------------------------------------------------------------------ calls: argument binding
@@ -3038,6 +3118,159 @@ def _sequence_items(fi: FuncInfo, seq: ast.AST, depth: int = 4) -> list[ast.AST]
     return None
 
 
+def _is_empty_bytes_join(e: ast.AST, fi: FuncInfo) -> ast.AST | None:
+    """the sequence argument when e is `b"".join(seq)` / `bytes.join(b"", seq)`, else None"""
+    if not (isinstance(e, ast.Call) and isinstance(e.func, ast.Attribute) and e.func.attr == "join" and not e.keywords
+            and not any(isinstance(a, ast.Starred) for a in e.args)):
+        return None
+    recv = e.func.value
+    if len(e.args) == 1 and isinstance(recv, ast.Constant) and isinstance(recv.value, bytes) and recv.value == b"":
+        return e.args[0]
+    if len(e.args) == 2 and _builtin_chain(fi, recv) == "bytes" and isinstance(e.args[0], ast.Constant) \
+            and isinstance(e.args[0].value, bytes) and e.args[0].value == b"":
+        return e.args[1]
+    return None
+
+
+def _grown_items(fi: FuncInfo, st: ast.AST, name: str, kind: str = "list") -> list[ast.AST] | None:
+    """the items statement `st` appends to the end of accumulator `name`.  kind 'list' (items are joined later):
+    `name.append(x)` -> [x], `name.extend(<spelled-out sequence>)` / `name += <spelled-out sequence>` -> its items.
+    kind 'bytes' (a bytearray; the items are the byte strings put in): `name += e` / `name.extend(e)` -> [e],
+    `name.append(n)` -> [bytes([n])].  None: st is not such a statement."""
+    if isinstance(st, ast.AugAssign):
+        if not (isinstance(st.op, ast.Add) and isinstance(st.target, ast.Name) and st.target.id == name):
+            return None
+        if kind == "bytes":
+            return [st.value]
+        return _sequence_items(fi, st.value) if isinstance(strip_cast(st.value), (ast.List, ast.Tuple)) else None
+    if isinstance(st, ast.Expr) and isinstance(st.value, ast.Call):
+        c = st.value
+        f = c.func
+        if isinstance(f, ast.Attribute) and isinstance(f.value, ast.Name) and f.value.id == name and len(c.args) == 1 \
+                and not c.keywords and not isinstance(c.args[0], ast.Starred):
+            if f.attr == "append":
+                if kind == "bytes":
+                    one = ast.Call(func=ast.Name(id="bytes", ctx=ast.Load()),
+                                   args=[ast.List(elts=[c.args[0]], ctx=ast.Load())], keywords=[])
+                    return [ast.copy_location(one, c)] if not _module_binds(fi, "bytes") else None
+                return [c.args[0]]
+            if f.attr == "extend":
+                if kind == "bytes":
+                    return [c.args[0]]
+                return _sequence_items(fi, c.args[0]) if isinstance(strip_cast(c.args[0]), (ast.List, ast.Tuple)) else None
+    return None
+
+
+def _bytearray_local(fi: FuncInfo, name: str) -> bool:
+    """is `name` a local whose one plain binding is `bytearray(..)`?"""
+    if name in fi.params():
+        return False
+    base = [d for d in _match_local_defs(fi, name) if not isinstance(d[0], ast.AugAssign)]
+    v = strip_cast(base[0][1]) if len(base) == 1 and base[0][1] is not None and base[0][2] is None else None
+    return isinstance(v, ast.Call) and _builtin_chain(fi, v.func) == "bytearray"
+
+
+def _list_builder_at(cfg, fi: FuncInfo, node, name: str, kind: str = "list") -> list[list[tuple]] | None:
+    """
+    The contents of local list `name` on entry to CFG node `node`, when the list is a private accumulator of the
+    function: bound exactly once, to a fresh spelled-out list (`[a, b]`, `[]`, `list(<display>)`); grown only at its END,
+    by statements `name.append(x)` / `name.extend(<display>)` / `name += <display>`; and otherwise only READ as the
+    argument of `b"".join(..)` (so it has no alias and nothing else can change it).  Its contents at a program point
+    are then the initial items followed by the items of the growing statements that completed on the path taken (a
+    growing statement whose argument raises appends nothing) - computed by forward propagation over the CFG, one item
+    list per path class.  -> [[(cfg node at which the item expression is evaluated, item expression), ...], ...];
+    None when the list is not such an accumulator or grows inside a loop (not followed).
+    kind 'bytes': the same for a private bytearray - bound once to `bytearray()` / `bytearray(<bytes expression>)`, grown
+    by `name += e` / `name.extend(e)` / `name.append(n)` (one byte), read only by bytes(name) / memoryview(name) /
+    len(name) / as the data handed to create_signature / by `return name`; the items are the byte strings put in.
+    """
+    from ..model import enclosing_stmt
+    if name in fi.params():
+        return None
+    defs = _match_local_defs(fi, name)
+    base = [d for d in defs if not isinstance(d[0], ast.AugAssign)]
+    if len(base) != 1 or base[0][1] is None or base[0][2] is not None or not isinstance(base[0][0], (ast.Assign, ast.AnnAssign)):
+        return None
+    init = strip_cast(base[0][1])
+    if kind == "bytes":
+        if not (isinstance(init, ast.Call) and _builtin_chain(fi, init.func) == "bytearray" and not init.keywords
+                and len(init.args) <= 1 and not any(isinstance(a, ast.Starred) for a in init.args)):
+            return None
+        a0 = strip_cast(init.args[0]) if init.args else None
+        if a0 is not None and not (isinstance(a0, (ast.BinOp, ast.Call, ast.Attribute, ast.Name))
+                                   or (isinstance(a0, ast.Constant) and isinstance(a0.value, bytes))):
+            return None                      # bytearray(<int>) is that many zero bytes, not a copy
+        first = [] if a0 is None or (isinstance(a0, ast.Constant) and a0.value == b"") else [a0]
+    elif isinstance(init, ast.Call) and _builtin_chain(fi, init.func) == "list" and not init.keywords and len(init.args) <= 1:
+        first = _sequence_items(fi, init.args[0]) if init.args else []
+    elif isinstance(init, ast.List):
+        first = _sequence_items(fi, init)
+    else:
+        return None
+    if first is None:
+        return None
+    effects: dict = {}                      # cfg node -> ("set" | "grow", items)
+    for n in cfg.nodes_for(base[0][0]):
+        effects[n] = ("set", first)
+    for n in ast.walk(fi.node):
+        if isinstance(n, ast.arg) and n.arg == name:
+            return None                      # a nested scope has a parameter of that name: not followed
+        if not (isinstance(n, ast.Name) and n.id == name):
+            continue
+        from ..model import enclosing_function
+        if enclosing_function(n) is not fi.node:
+            return None                      # read or written by a closure: not followed
+        st = enclosing_stmt(n)
+        if isinstance(n.ctx, ast.Store):
+            if st is base[0][0]:
+                continue
+            items = _grown_items(fi, st, name, kind) if isinstance(st, ast.AugAssign) and st.target is n else None
+            if items is None:
+                return None
+        elif isinstance(n.ctx, ast.Load):
+            p = parent(n)
+            if kind == "list" and isinstance(p, ast.Call) and _is_empty_bytes_join(p, fi) is n:
+                continue
+            if kind == "bytes" and (
+                    (isinstance(p, ast.Return) and p.value is n)
+                    or (isinstance(p, ast.Call) and p.args == [n] and not p.keywords
+                        and _builtin_chain(fi, p.func) in ("bytes", "memoryview", "len"))
+                    or (isinstance(p, ast.Call) and call_name(p) == "create_signature" and any(a is n for a in p.args))):
+                continue
+            items = _grown_items(fi, st, name, kind) if isinstance(p, ast.Attribute) and isinstance(st, ast.Expr) \
+                and isinstance(st.value, ast.Call) and st.value.func is p else None
+            if items is None:
+                return None
+        else:
+            return None
+        nodes = cfg.nodes_for(st)
+        if not nodes:
+            return None
+        for x in nodes:
+            effects[x] = ("grow", items)
+    state: dict = {cfg.entry: {None}}       # None: the name is not bound yet
+    todo = [cfg.entry]
+    while todo:
+        u = todo.pop()
+        for v, lab in u.succ:
+            out = set()
+            for s in state[u]:
+                eff = effects.get(u) if lab != "exc" else None
+                if eff is None:
+                    out.add(s)
+                elif eff[0] == "set":
+                    out.add(tuple((u, x) for x in eff[1]))
+                elif s is not None:
+                    out.add(s + tuple((u, x) for x in eff[1]))
+            cur = state.setdefault(v, set())
+            if not out <= cur:
+                cur |= out
+                if len(cur) > 32 or any(s is not None and len(s) > 64 for s in cur):
+                    return None              # grows in a loop / too many path classes
+                todo.append(v)
+    return [list(s) for s in state.get(node, set()) if s is not None]
+
+
 def _concat_parts_at(cfg, fi: FuncInfo, node, e: ast.AST, depth: int = 8) -> list[list[ast.AST]] | None:
     """
     The value of bytes expression `e` on entry to CFG node `node`, as a concatenation of leaf expressions: one list of
@@ -3053,6 +3286,36 @@ def _concat_parts_at(cfg, fi: FuncInfo, node, e: ast.AST, depth: int = 8) -> lis
             return None
         return [a + b for a in left for b in right]
     seq = None
+    joined = _is_empty_bytes_join(e, fi)
+    acc_name, acc_kind = None, "list"
+    if joined is not None and isinstance(strip_cast(joined), ast.Name) and _sequence_items(fi, joined) is None:
+        acc_name = strip_cast(joined).id
+    else:
+        b = e
+        if isinstance(b, ast.Call) and len(b.args) == 1 and not b.keywords and _builtin_chain(fi, b.func) in ("bytes", "memoryview"):
+            b = strip_cast(b.args[0])                 # bytes(buf): the content of the bytearray `buf` at this point
+        if isinstance(b, ast.Name) and _bytearray_local(fi, b.id):
+            acc_name, acc_kind = b.id, "bytes"
+    if acc_name is not None:
+        # b"".join(parts), parts being a list that the function grows step by step (parts.append(x), parts += [y]):
+        # the concatenation of what the list holds at this point, every item as it was when it was put in
+        alts = _list_builder_at(cfg, fi, node, acc_name, acc_kind)
+        if not alts:
+            return None
+        out_: list[list[ast.AST]] = []
+        for items in alts:
+            if not items and acc_kind == "list":
+                return None
+            acc_: list[list[ast.AST]] = [[]]
+            for at, x in items:
+                sub = _concat_parts_at(cfg, fi, at, x, depth - 1)
+                if sub is None:
+                    return None
+                acc_ = [a + b for a in acc_ for b in sub]
+                if len(acc_) > 64:
+                    return None
+            out_.extend(acc_)
+        return out_
     if isinstance(e, ast.Call) and isinstance(e.func, ast.Attribute) and e.func.attr == "join" and len(e.args) == 1 \
             and not e.keywords and isinstance(e.func.value, ast.Constant) and e.func.value.value == b"":
         # b"".join([a, b, c]) == a + b + c  (the list may sit in a single-assignment local that is not mutated)
@@ -3070,6 +3333,12 @@ def _concat_parts_at(cfg, fi: FuncInfo, node, e: ast.AST, depth: int = 8) -> lis
                 return None
         else:
             seq = list(e.args)                            # operator.add(a, b) == a + b
+    elif isinstance(e, ast.BinOp) and isinstance(e.op, ast.Mod) and isinstance(e.left, ast.Constant) \
+            and isinstance(e.left.value, bytes) and e.left.value and len(e.left.value) % 2 == 0 \
+            and all(e.left.value[i:i + 2] in (b"%b", b"%s") for i in range(0, len(e.left.value), 2)) \
+            and isinstance(e.right, ast.Tuple) and len(e.right.elts) == len(e.left.value) // 2 \
+            and not any(isinstance(x, ast.Starred) for x in e.right.elts):
+        seq = list(e.right.elts)                          # b"%b%b" % (a, b) == a + b  (bytes operands)
     elif isinstance(e, ast.Call) and isinstance(e.func, ast.Attribute) and e.func.attr == "__add__" and len(e.args) == 1 \
             and not e.keywords and not isinstance(e.args[0], ast.Starred):
         seq = [e.func.value, e.args[0]]                   # a.__add__(b) == a + b
@@ -3139,6 +3408,29 @@ def _signature_flow(fi: FuncInfo, cfg, sig: ast.AST) -> tuple[list, bool, bool]:
             appended.append((cfg.nodes_for(p), p.target))
         elif isinstance(p, ast.BinOp) and isinstance(p.op, ast.Add) and p.right is s:
             appended.append((cfg.nodes_for(p), p.left))
+        elif isinstance(p, ast.Call) and p.args == [s] and not p.keywords and isinstance(p.func, ast.Attribute) \
+                and p.func.attr == "extend" and isinstance(p.func.value, ast.Name) and isinstance(parent(p), ast.Expr) \
+                and _bytearray_local(fi, p.func.value.id):
+            appended.append((cfg.nodes_for(p), p.func.value))       # buf.extend(sig) on a bytearray is buf += sig
+        elif isinstance(p, ast.Call) and p.args == [s] and not p.keywords and isinstance(p.func, ast.Attribute) \
+                and p.func.attr == "append" and isinstance(p.func.value, ast.Name) and isinstance(parent(p), ast.Expr):
+            # parts.append(sig): the signature is appended to what the list `parts` holds at this point, joined
+            # (_concat_parts_at follows the list only when every read of it is b"".join(parts))
+            before = ast.Call(func=ast.Attribute(value=ast.Constant(value=b""), attr="join", ctx=ast.Load()),
+                              args=[ast.Name(id=p.func.value.id, ctx=ast.Load())], keywords=[])
+            appended.append((cfg.nodes_for(p), before))
+        elif isinstance(p, (ast.List, ast.Tuple)) and p.elts == [s] and (
+                (isinstance(parent(p), ast.AugAssign) and isinstance(parent(p).op, ast.Add) and parent(p).value is p
+                 and isinstance(parent(p).target, ast.Name))
+                or (isinstance(parent(p), ast.Call) and parent(p).args == [p] and not parent(p).keywords
+                    and isinstance(parent(p).func, ast.Attribute) and parent(p).func.attr == "extend"
+                    and isinstance(parent(p).func.value, ast.Name) and isinstance(parent(parent(p)), ast.Expr))):
+            # parts += [sig] / parts.extend([sig]): likewise
+            pp = parent(p)
+            lname = pp.target.id if isinstance(pp, ast.AugAssign) else pp.func.value.id
+            before = ast.Call(func=ast.Attribute(value=ast.Constant(value=b""), attr="join", ctx=ast.Load()),
+                              args=[ast.Name(id=lname, ctx=ast.Load())], keywords=[])
+            appended.append((cfg.nodes_for(pp), before))
         elif isinstance(p, (ast.List, ast.Tuple)) and len(p.elts) >= 2 and p.elts[-1] is s and isinstance(parent(p), ast.Call) \
                 and isinstance(parent(p).func, ast.Attribute) and parent(p).func.attr == "join" and parent(p).args == [p] \
                 and isinstance(parent(p).func.value, ast.Constant) and parent(p).func.value.value == b"":
@@ -4469,8 +4761,173 @@ def rule_no_bypass(ctx: Ctx) -> None:
                   f"single definition of {name}", f"{name} is defined {len(cands)} times (shadowing the verifying decorator)")
 
 
+_PEER_FILE = "ipv8/peer.py"
+_MEMO_DECOS = ("lru_cache", "cache", "functools.lru_cache", "functools.cache", "staticmethod")
+
+
+def _is_key_parser_call(ctx: Ctx, fi: FuncInfo, c: ast.Call) -> bool:
+    """<crypto>.key_from_public_bin(...) - also through a module-level alias of that bound method"""
+    if call_name(c) == "key_from_public_bin":
+        return True
+    if isinstance(c.func, ast.Name) and c.func.id not in _local_names(fi):
+        r = ctx.repo.resolve_name(fi.module, c.func.id)
+        if isinstance(r, tuple) and r[0] == "const" and (chain(r[2]) or "").endswith(".key_from_public_bin"):
+            return True
+    return False
+
+
+def _peer_key_value(ctx: Ctx, fi: FuncInfo, v: ast.AST | None, key_name: str, depth: int = 3) -> tuple[str, str]:
+    """
+    Is value v - stored as the key object of a Peer that fi builds from parameter `key_name` - the parameter itself
+    (a Key instance handed in) or the trusted parser applied to the WHOLE, unmodified parameter?
+    -> ('ok' | 'bad' | 'unknown', reason).  'bad' only for a derivation that is recognised and reads a PART of the
+    bytes (parser / table indexed with a slice, a suffix, a hash of a part ...); anything not recognised is 'unknown'.
+    """
+    def whole(a) -> bool:
+        return a is not None and _xnorm(fi, a) == key_name and _is_param_unmodified(fi, key_name)
+
+    def combine(rs):
+        rs = list(rs)
+        for kind in ("bad", "unknown"):
+            for r in rs:
+                if r[0] == kind:
+                    return r
+        return ("ok", "") if rs else ("unknown", "no value")
+
+    def part_of_key(a) -> bool:
+        x = _expand(fi, a)
+        return x is not None and any(isinstance(n, ast.Name) and n.id == key_name for n in ast.walk(x)) and not whole(a)
+
+    def table_lookup(table, k, others=()) -> tuple[str, str]:
+        if part_of_key(k):
+            return ("bad", f"the key object is taken from `{norm(table)}` under `{_xnorm(fi, k)}`, which is only a part / a "
+                           f"function of the key bytes `{key_name}`: different key bins that agree on it are given the same "
+                           "key object")
+        table = strip_cast(table)
+        if not whole(k) or not isinstance(table, ast.Name) or table.id in _local_names(fi) or depth <= 0:
+            return ("unknown", f"lookup `{norm(table)}[{norm(k)}]`")
+        # a memo table of the module indexed with the whole key bytes: every entry ever stored must be the parse of its index
+        name = table.id
+        for m in ctx.repo.modules.values():
+            if m is not fi.module and any(isinstance(n, ast.alias) and n.name == name for n in ast.walk(m.tree)):
+                return ("unknown", f"`{name}` is imported elsewhere")
+        rs = [_peer_key_value(ctx, fi, o, key_name, depth - 1) for o in others]
+        for n in ast.walk(fi.module.tree):
+            if not (isinstance(n, ast.Name) and n.id == name):
+                continue
+            p = parent(n)
+            if isinstance(n.ctx, ast.Store):
+                if p is fi.module.tree or isinstance(parent(p), ast.Module):
+                    continue                                  # the (empty) table is created at module level
+                return ("unknown", f"`{name}` is re-bound")
+            if isinstance(p, ast.Subscript) and p.value is n and isinstance(p.ctx, ast.Store):
+                st = parent(p)
+                g = ctx.repo.function_of(p)
+                if g is None or g.node is not fi.node or not isinstance(st, ast.Assign) or len(st.targets) != 1:
+                    return ("unknown", f"`{name}` is filled outside {fi.qualname}")
+                if not whole(p.slice):
+                    return ("bad" if part_of_key(p.slice) else "unknown",
+                            f"`{name}` is filled under `{_xnorm(fi, p.slice)}`, not under the whole key bytes")
+                rs.append(_peer_key_value(ctx, fi, st.value, key_name, depth - 1))
+            elif isinstance(p, ast.Attribute) and p.value is n and p.attr in ("update", "__setitem__", "fromkeys") \
+                    or isinstance(p, ast.AugAssign):
+                return ("unknown", f"`{name}` is filled by `{p.attr if isinstance(p, ast.Attribute) else '|='}`")
+            elif isinstance(p, ast.Attribute) and p.value is n and p.attr == "setdefault":
+                c = parent(p)
+                g = ctx.repo.function_of(p)
+                if not (isinstance(c, ast.Call) and len(c.args) == 2 and g is not None and g.node is fi.node and whole(c.args[0])):
+                    return ("unknown", f"`{name}.setdefault` elsewhere")
+                rs.append(_peer_key_value(ctx, fi, c.args[1], key_name, depth - 1))
+        return combine(rs) if rs else ("unknown", f"`{name}` is never filled")
+
+    v = strip_cast(v) if v is not None else None
+    if v is None or depth < 0:
+        return ("unknown", "no value")
+    if isinstance(v, ast.NamedExpr):
+        return _peer_key_value(ctx, fi, v.value, key_name, depth)
+    if isinstance(v, ast.Name):
+        if v.id == key_name:
+            return ("ok", "") if _is_param_unmodified(fi, key_name) else ("unknown", f"`{key_name}` is re-bound")
+        defs = local_defs(fi, v.id)
+        if v.id in fi.params() or not defs or any(val is None or idx is not None for _, val, idx in defs):
+            return ("unknown", f"`{v.id}`")
+        return combine(_peer_key_value(ctx, fi, val, key_name, depth - 1) for _, val, _ in defs)
+    if isinstance(v, ast.IfExp):
+        return combine([_peer_key_value(ctx, fi, v.body, key_name, depth), _peer_key_value(ctx, fi, v.orelse, key_name, depth)])
+    if isinstance(v, ast.BoolOp) and isinstance(v.op, ast.Or):
+        return combine(_peer_key_value(ctx, fi, x, key_name, depth) for x in v.values)
+    if isinstance(v, ast.Subscript) and isinstance(v.ctx, ast.Load):
+        return table_lookup(v.value, v.slice)
+    if isinstance(v, ast.Call):
+        if _is_key_parser_call(ctx, fi, v):
+            a = arg(v, 0, "string")
+            if whole(a):
+                return ("ok", "")
+            if a is not None and part_of_key(a):
+                return ("bad", f"the key object is parsed from `{_xnorm(fi, a)}`, not from the whole key bytes `{key_name}`")
+            return ("unknown", f"`{norm(v)}`")
+        f = v.func
+        if isinstance(f, ast.Attribute) and f.attr in ("get", "setdefault", "__getitem__", "pop") and 1 <= len(v.args) <= 2 \
+                and not v.keywords and not any(isinstance(a, ast.Starred) for a in v.args):
+            return table_lookup(f.value, v.args[0], v.args[1:])
+        ts = _targets(ctx, fi, v) if isinstance(f, (ast.Name, ast.Attribute)) else []
+        if ts and len(ts) <= 2 and depth > 0 and all(
+                isinstance(t, FuncInfo) and not t.module.relpath.startswith(_TRUSTED_API) and not t.is_async
+                and not isinstance(t.node, ast.Lambda)
+                and all((chain(d.func) if isinstance(d, ast.Call) else chain(d)) in _MEMO_DECOS for d in t.node.decorator_list)
+                for t in ts):
+            # a helper (possibly memoised on its arguments by functools: the same function): every value it returns,
+            # judged with its parameter standing for the caller's key bytes
+            rs = []
+            for t in ts:
+                is_method = t.cls is not None and not any(chain(d) == "staticmethod" for d in t.node.decorator_list)
+                bound = _bind_call(v, t, receiver=is_method)
+                ps = [p for p, a in (bound or {}).items() if whole(a)]
+                rets = [r for r in walk_no_nested(t.node) if isinstance(r, ast.Return) and r.value is not None]
+                if len(ps) != 1 or not rets or any(isinstance(n, (ast.Yield, ast.YieldFrom)) for n in walk_no_nested(t.node)):
+                    return ("unknown", f"helper `{norm(v)}`")
+                rs.extend(_peer_key_value(ctx, t, r.value, ps[0], depth - 1) for r in rets)
+            return combine(rs)
+    return ("unknown", f"`{norm(v)}`")
+
+
+def rule_peer_identity(ctx: Ctx) -> None:
+    """
+    The wrappers hand the handler Peer(<verified auth>.public_key_bin) (peer-from-auth-key), and _verify_signature checked
+    the signature with key_from_public_bin(<that bin>).  The handler's peer is "exactly that key" only if Peer.__init__
+    turns the same bytes into a key object the same way: the trusted parser applied to the whole argument.  (The parsers
+    read the key from the front of the bin and tolerate trailing bytes, so any derivation that looks at a part of the bin -
+    an interning table indexed with a suffix, a parser fed a slice - can resolve to another key than the one that verified.)
+    """
+    fi = ctx.repo.method("Peer", "__init__", _PEER_FILE)
+    params = fi.params()
+    if len(params) < 2:
+        raise AnalysisError("anchor-lost: Peer.__init__ signature")
+    key_name = params[1]
+    sites = []
+    for n in walk_no_nested(fi.node):
+        if isinstance(n, (ast.Assign, ast.AnnAssign)) and getattr(n, "value", None) is not None:
+            tgts = n.targets if isinstance(n, ast.Assign) else [n.target]
+            if any(isinstance(t, ast.Attribute) and t.attr == "key" and isinstance(t.value, ast.Name) and t.value.id == params[0]
+                   for t in tgts):
+                sites.append(n)
+    ctx.anchor(sites, "Peer.__init__ stores self.key")
+    for st in sites:
+        kind, why = _peer_key_value(ctx, fi, st.value, key_name)
+        if kind == "unknown":
+            raise AnalysisError(f"undecided: cannot follow how Peer.__init__ derives `{norm(st.value)}` from `{key_name}` ({why})")
+        ctx.check(kind == "ok", "peer-identity-is-parsed-key", fi, st,
+                  f"Peer.__init__: self.key is the `{key_name}` argument itself or key_from_public_bin(<the whole argument>) - the "
+                  "same parse of the same bytes that _verify_signature checks the signature with",
+                  f"Peer.__init__ does not build the peer's key the way _verify_signature does ({why}): the signature of a datagram "
+                  "is checked with key_from_public_bin(auth.public_key_bin), which reads the key from the front of the bin, but "
+                  "the Peer(auth.public_key_bin) handed to the authenticated handler - and stored as verified peer - can then "
+                  "carry ANOTHER key, so a message is attributed to a key whose private half the sender does not hold")
+
+
 def run(ctx: Ctx) -> None:
     rule_wrappers(ctx)
+    rule_peer_identity(ctx)
     rule_effects_after_verdict(ctx)
     rule_verify_signature(ctx)
     rule_sign_side(ctx)
@@ -5065,3 +5522,84 @@ WITNESSES = [
         self._handler_for(245)(address, b"")"""}]},
 ]
 WITNESSES += _ROUND4_WITNESSES
+
+_PEER_PARSE = "            self.key: Key = default_eccrypto.key_from_public_bin(key)\n"
+_PEER_TABLE = {"file": _PEER_FILE, "old": "class DirtyDict(dict):", "new": "_PARSED_KEYS: dict = {}\n\n\nclass DirtyDict(dict):"}
+_EZ_PACK_OLD = """        packet = prefix + bytes([msg_num]) + self.serializer.pack_serializable_list(payloads)
+        if sig:
+            packet += default_eccrypto.create_signature(cast("PrivateKey", self.my_peer.key), packet)
+        return packet
+"""
+_ROUND5_WITNESSES = [
+    {"name": "Peer.__init__ interns parsed keys in a table indexed by the last 64 bytes of the key bin (seeded C01-m16)",
+     "file": _PEER_FILE, "rule": "peer-identity-is-parsed-key",
+     "edits": [_PEER_TABLE,
+               {"file": _PEER_FILE, "old": _PEER_PARSE,
+                "new": "            material = key[-64:]\n"
+                       "            if material not in _PARSED_KEYS:\n"
+                       "                _PARSED_KEYS[material] = default_eccrypto.key_from_public_bin(key)\n"
+                       "            self.key: Key = _PARSED_KEYS[material]\n"}]},
+    {"name": "Peer.__init__ parses only the last 74 bytes of the key bin", "file": _PEER_FILE,
+     "rule": "peer-identity-is-parsed-key", "old": _PEER_PARSE,
+     "new": "            self.key: Key = default_eccrypto.key_from_public_bin(key[-74:])\n"},
+    {"name": "Peer.__init__ interns parsed keys in a table indexed by the whole key bin", "kind": "repaired",
+     "file": _PEER_FILE, "rule": "peer-identity-is-parsed-key",
+     "edits": [_PEER_TABLE,
+               {"file": _PEER_FILE, "old": _PEER_PARSE,
+                "new": "            if key not in _PARSED_KEYS:\n"
+                       "                _PARSED_KEYS[key] = default_eccrypto.key_from_public_bin(key)\n"
+                       "            self.key: Key = _PARSED_KEYS[key]\n"}]},
+    {"name": "Peer.__init__ parses through an lru_cache'd module helper", "kind": "repaired",
+     "file": _PEER_FILE, "rule": "peer-identity-is-parsed-key",
+     "edits": [{"file": _PEER_FILE, "old": "class DirtyDict(dict):",
+                "new": "from functools import lru_cache\n\n\n@lru_cache(maxsize=4096)\ndef _parse_public(key_bin: bytes) -> Key:\n"
+                       "    return default_eccrypto.key_from_public_bin(key_bin)\n\n\nclass DirtyDict(dict):"},
+               {"file": _PEER_FILE, "old": _PEER_PARSE, "new": "            self.key: Key = _parse_public(key)\n"}]},
+    {"name": "_ez_pack collects the parts in a list: signature computed before the payloads are appended",
+     "file": _LC, "rule": "sign-covers-all", "old": _EZ_PACK_OLD,
+     "new": """        parts = [prefix, bytes([msg_num])]
+        signature = default_eccrypto.create_signature(cast("PrivateKey", self.my_peer.key), b"".join(parts))
+        parts.append(self.serializer.pack_serializable_list(payloads))
+        if sig:
+            parts.append(signature)
+        return b"".join(parts)
+"""},
+    {"name": "_ez_pack collects the parts in a list, signs the joined list and appends the signature to it",
+     "kind": "repaired", "file": _LC, "rule": "sign-covers-all", "old": _EZ_PACK_OLD,
+     "new": """        parts = [prefix, bytes([msg_num])]
+        parts.append(self.serializer.pack_serializable_list(payloads))
+        if sig:
+            parts += [default_eccrypto.create_signature(cast("PrivateKey", self.my_peer.key), b"".join(parts))]
+        return b"".join(parts)
+"""},
+    {"name": "_verify_signature slices a memoryview of the datagram: the signed region skips the first byte",
+     "file": _LC, "rule": "whole-prefix",
+     "old": "        return ec.is_valid_signature(public_key, data[:-signature_length], signature), remainder\n",
+     "new": "        view = memoryview(data)\n"
+            "        return ec.is_valid_signature(public_key, bytes(view[1:-signature_length]), signature), remainder\n"},
+    {"name": "_verify_signature slices a memoryview of the datagram (same regions)", "kind": "repaired",
+     "file": _LC, "rule": "whole-prefix",
+     "old": "        return ec.is_valid_signature(public_key, data[:-signature_length], signature), remainder\n",
+     "new": "        view = memoryview(data)\n"
+            "        return ec.is_valid_signature(public_key, bytes(view[:-signature_length]), signature), remainder\n"},
+    {"name": "_ez_pack fills a bytearray: signature computed before the payloads are added",
+     "file": _LC, "rule": "sign-covers-all", "old": _EZ_PACK_OLD,
+     "new": """        packet = bytearray(prefix)
+        packet.append(msg_num)
+        signature = default_eccrypto.create_signature(cast("PrivateKey", self.my_peer.key), bytes(packet))
+        packet += self.serializer.pack_serializable_list(payloads)
+        if sig:
+            packet.extend(signature)
+        return bytes(packet)
+"""},
+    {"name": "_ez_pack fills a bytearray, signs its content and appends the signature", "kind": "repaired",
+     "file": _LC, "rule": "sign-covers-all", "old": _EZ_PACK_OLD,
+     "new": """        packet = bytearray(prefix)
+        packet.append(msg_num)
+        packet += self.serializer.pack_serializable_list(payloads)
+        if sig:
+            packet += default_eccrypto.create_signature(cast("PrivateKey", self.my_peer.key), bytes(packet))
+        return bytes(packet)
+"""},
+]
+WITNESSES += _ROUND5_WITNESSES
